@@ -284,6 +284,11 @@ impl<'a> Parser<'a> {
             }
             Token::Num(i) => {
                 self.get_next_token()?;
+                if matches!(self.current_token, Token::Num(_)) {
+                    return Err(ParseError::UnableToParse(
+                        "Two consecutive numbers without an operator".to_string(),
+                    ));
+                }
                 self.implicit_multiply(Node::Number(i))
             }
             Token::Pi => {
